@@ -41,6 +41,9 @@ def run_one(pid, x, tier, demo=True):
     try:
         r = sh("git -C %s apply %s" % (wt, patch))
         if r.returncode:
+            # the tree has moved on since the change was seeded (fix: commits): retry with reduced context
+            r = sh("git -C %s apply -C1 %s || patch -d %s -p1 --fuzz=3 -s < %s" % (wt, patch, wt, patch))
+        if r.returncode:
             return {"error": "patch does not apply: " + r.stdout[-300:]}
         if demo and os.path.exists(os.path.join(d, "demo.py")):
             r = sh("PYTHONPATH=%s timeout 600 /venv/bin/python %s" % (wt, os.path.join(d, "demo.py")), cwd=wt)
